@@ -27,6 +27,8 @@ __definition_node_ids = set()
 __sort_lookup = {}
 # Stores the names of declared or defined functions that take arguments
 __nary_functions = set()
+# Stores the names of symbols bound by let
+__let_bound_symbols = set()
 # Stores indices that should not be replaced by constants
 __indices = set()
 # Caches calls to get_sort
@@ -47,6 +49,7 @@ def collect_information(exprs):  # noqa: C901
     global __definition_node_ids
     global __sort_lookup
     global __nary_functions
+    global __let_bound_symbols
     global __indices
     global __datatypes_constants
     global __datatypes_constructors
@@ -180,6 +183,7 @@ def collect_information(exprs):  # noqa: C901
                 sym, term = var
                 if sym.is_leaf():
                     __sort_lookup[sym.data] = get_sort(term)
+                    __let_bound_symbols.add(sym.data)
                     __definition_node_ids.add(sym.id)
         # Determine sort of symbols introduced by quantifiers
         if (is_operator_app(node, 'exists')
@@ -203,6 +207,7 @@ def reset_information():
     global __definition_node_ids
     global __sort_lookup
     global __nary_functions
+    global __let_bound_symbols
     global __indices
     global __get_sort_cache
     global __datatypes_constants
@@ -213,6 +218,7 @@ def reset_information():
     __definition_node_ids = set()
     __sort_lookup = {}
     __nary_functions = set()
+    __let_bound_symbols = set()
     __indices = set()
     __get_sort_cache = {}
     __datatypes_constants = {}
@@ -274,6 +280,15 @@ def is_var(node):
     ``collect_information``.
     """
     return node.is_leaf() and node in __constants
+
+
+def is_let_bound(name):
+    """Return true if ``name`` is a symbol bound by a let binder.
+
+    Requires that global information has been populated via
+    ``collect_information``.
+    """
+    return name in __let_bound_symbols
 
 
 def is_piped_symbol(node):
